@@ -109,14 +109,25 @@ def h_table_counts(nr, nc, axis, n, replace):
         keep_pre = [bool(totals[k] > 0) for k in range(N)]
     else:
         keep_pre = [bool(totals[k] >= n) for k in range(N)]
-    seed = pick([0, 7], 'seed')
+    via = 'method' if replace else pick(['method', 'generate_subsamples'], 'via')
+    seed = pick([0, 7], 'seed') if via == 'method' else None
     RNG.reset()
-    res, e = call(lambda: t.subsample(n, axis=axis, with_replacement=replace, seed=seed))
-    sig = dict(axis=axis, replace=int(replace), n=n)
+    sig = dict(axis=axis, replace=int(replace), n=n, via=via)
+    if via == 'method':
+        res, e = call(lambda: t.subsample(n, axis=axis, with_replacement=replace, seed=seed))
+    else:
+        # the generator API: every yielded table is one subsample of the (never modified) input; look at the second one
+        import sx.env as env
+        U = env.module('biom.util')
+        gen = U.generate_subsamples(t, n, axis=axis)
+        first, e = call(lambda: next(gen))
+        if e is None:
+            same_table('subsample:input-unchanged', observe(t), a, type_=True, after='first-yield', **sig)
+            res, e = call(lambda: next(gen))
     if e is not None:
         fail('subsample:raised', repr(e)[:160], all_vectors_have_entries=int(all(bool(totals[k] > 0) for k in range(N))), **sig)
         return
-    if len(RNG.LOG) != 1 or RNG.LOG[0].seed != seed:
+    if via == 'method' and (len(RNG.LOG) != 1 or RNG.LOG[0].seed != seed):
         fail('subsample:seeding', f"{len(RNG.LOG)} generators, seeds {[g.seed for g in RNG.LOG]} for seed={seed}", **sig)
     got = observe(res)
     coherent('subsample:coherent', res, **sig)
